@@ -50,3 +50,88 @@ Proof.
     - intros lits. destruct (distinct (map key_of lits)); exact I. }
   destruct c as [|p]; [exact I|]. repeat (destruct p as [p|p|]; try exact I). exact H.
 Qed.
+
+(* ---- completeness of the enum parser: every text of the grammar is accepted ---- *)
+(* the grammar with its two reading conventions made explicit: a scalar ends where it cannot be extended (so it is
+   followed by a separator, not by a digit or a decimal point), and a block annotation ends at its first closing mark *)
+Definition no_close (c : bytes) : Prop := (forall a b, c <> a ++ 42 :: 47 :: b) /\ (forall a, c <> a ++ [42]).
+Inductive LexD : bytes -> list tok -> Prop :=
+| ld_nil : LexD [] []
+| ld_ws c r t : is_ws c = true -> LexD r t -> LexD (c :: r) t
+| ld_rb r t : LexD r t -> LexD (93 :: r) (TRB :: t)
+| ld_comma r t : LexD r t -> LexD (44 :: r) (TComma :: t)
+| ld_scalar lit r t : EnumScalar lit -> stop r -> LexD r t -> LexD (lit ++ r) (TScalar lit :: t)
+| ld_line_eof c : no_nl c -> LexD (47 :: 47 :: c) []
+| ld_line c n r t : no_nl c -> is_nl n = true -> LexD r t -> LexD (47 :: 47 :: c ++ n :: r) t
+| ld_block c r t : no_close c -> LexD r t -> LexD (47 :: 42 :: c ++ 42 :: 47 :: r) t.
+
+Lemma drop_line_nl c n r : no_nl c -> is_nl n = true -> drop_line (c ++ n :: r) = r.
+Proof. intros Hc Hn. induction Hc as [|x c Hx _ IH]; cbn [app drop_line]; [rewrite Hn; reflexivity|]. rewrite Hx. exact IH. Qed.
+Lemma drop_line_eof c : no_nl c -> drop_line c = [].
+Proof. induction 1 as [|x c Hx _ IH]; cbn [drop_line]; [reflexivity|]. rewrite Hx. exact IH. Qed.
+Lemma close_block_first c r : no_close c -> close_block (c ++ 42 :: 47 :: r) = Some r.
+Proof.
+  intros [Hno Hedge]. induction c as [|x c IH]; cbn [app close_block]; [reflexivity|].
+  assert (Hrec : close_block (c ++ 42 :: 47 :: r) = Some r).
+  { apply IH; [intros a b E; apply (Hno (x :: a) b); rewrite E; reflexivity|intros a E; apply (Hedge (x :: a)); rewrite E; reflexivity]. }
+  destruct (N.eqb_spec x 42) as [->|Hx].
+  - destruct c as [|y c']; cbn [app].
+    + exfalso. exact (Hedge [] eq_refl).
+    + destruct (N.eqb_spec y 47) as [->|Hy]; [exfalso; exact (Hno [] c' eq_refl)|].
+      cbn [app] in Hrec. destruct y as [|p]; [exact Hrec|]. repeat (destruct p as [p|p|]; try exact Hrec). congruence.
+  - destruct x as [|p]; [exact Hrec|]. repeat (destruct p as [p|p|]; try exact Hrec). congruence.
+Qed.
+
+Lemma lex_scalar_step f lit r : EnumScalar lit -> stop r -> lex (S f) (lit ++ r) = (do t <- lex f r; Ok (TScalar lit :: t)).
+Proof.
+  intros Hl Hr. destruct (scalar_head lit Hl) as (c & l' & -> & Hw & H91 & _ & H93 & _).
+  assert (Hc44 : c <> 44 /\ c <> 47).
+  { destruct Hl as [(b & E & _)|[(m & i & fr & E & Hm & Hi & _)|[E|[E|E]]]]; try (inversion E; subst; split; discriminate).
+    destruct Hm as [-> | ->]; cbn [app] in E.
+    - destruct Hi as [-> |(d & ds & -> & Hd & _)]; cbn [app] in E; inversion E; subst; [split; discriminate|].
+      unfold digit19 in Hd. apply andb_true_iff in Hd. destruct Hd as [H1 H2]. apply N.leb_le in H1, H2. split; lia.
+    - inversion E; subst. split; discriminate. }
+  destruct Hc44 as [H44 H47].
+  pose proof (scalar_rescan (c :: l') Hl r Hr) as Hs. cbn [app] in *. cbn [lex]. rewrite Hw.
+  apply N.eqb_neq in H91, H93, H44, H47. rewrite H91, H93, H44, H47, Hs. reflexivity.
+Qed.
+
+Theorem lex_complete s ts : LexD s ts -> forall f, (length s < f)%nat -> lex f s = Ok ts.
+Proof.
+  induction 1 as [|c r t Hc _ IH|r t _ IH|r t _ IH|lit r t Hl Hr _ IH|c Hc|c n r t Hc Hn _ IH|c r t Hc _ IH]; intros f Hf.
+  - destruct f; [lia|reflexivity].
+  - destruct f; [lia|]. cbn [lex]. rewrite Hc. apply IH. cbn [length] in Hf. lia.
+  - destruct f; [lia|]. cbn [lex]. change (is_ws 93) with false. cbn [N.eqb Pos.eqb]. rewrite IH by (cbn [length] in Hf; lia). reflexivity.
+  - destruct f; [lia|]. cbn [lex]. change (is_ws 44) with false. cbn [N.eqb Pos.eqb]. rewrite IH by (cbn [length] in Hf; lia). reflexivity.
+  - destruct f; [lia|]. rewrite (lex_scalar_step f lit r Hl Hr). rewrite IH; [reflexivity|].
+    destruct (scalar_head lit Hl) as (c & l' & -> & _). rewrite app_length in Hf. cbn [length] in Hf. lia.
+  - destruct f; [lia|]. cbn [lex]. change (is_ws 47) with false. cbn [N.eqb Pos.eqb]. rewrite (drop_line_eof c Hc).
+    destruct f; [cbn [length] in Hf; lia|reflexivity].
+  - destruct f; [lia|]. cbn [lex]. change (is_ws 47) with false. cbn [N.eqb Pos.eqb]. rewrite (drop_line_nl c n r Hc Hn).
+    apply IH. cbn [length] in Hf. rewrite app_length in Hf. cbn [length] in Hf. lia.
+  - destruct f; [lia|]. cbn [lex]. change (is_ws 47) with false. cbn [N.eqb Pos.eqb]. rewrite (close_block_first c r Hc).
+    apply IH. cbn [length] in Hf. rewrite app_length in Hf. cbn [length] in Hf. lia.
+Qed.
+
+Lemma items_toks lits : lits <> [] -> items (toks_of lits) = Ok lits.
+Proof.
+  induction lits as [|l r IH]; [congruence|]. intros _. destruct r as [|l2 r'].
+  - reflexivity.
+  - change (toks_of (l :: l2 :: r')) with (TScalar l :: TComma :: toks_of (l2 :: r')). cbn [items]. rewrite IH by discriminate. reflexivity.
+Qed.
+Lemma body_toks lits : body (toks_of lits) = Ok lits.
+Proof.
+  destruct lits as [|l r]; [reflexivity|]. unfold body.
+  pose proof (items_toks (l :: r) ltac:(discriminate)) as H. destruct r; exact H.
+Qed.
+Lemma skip_ws_app w s : ws w -> skip_ws (w ++ s) = skip_ws s.
+Proof. induction 1 as [|c w Hc _ IH]; cbn [app skip_ws]; [reflexivity|]. rewrite Hc. exact IH. Qed.
+
+(* every enum text (blanks, "[", scalars separated by commas with blanks, newlines and annotations around them, "]") whose
+   scalars are pairwise different is accepted, and Values() lists exactly those scalars *)
+Theorem eparse_complete w r lits : ws w -> LexD r (toks_of lits) -> distinct (map key_of lits) = true ->
+  eparse (w ++ 91 :: r) = Ok lits.
+Proof.
+  intros Hw Hl Hd. unfold eparse. rewrite (skip_ws_app w _ Hw). cbn [skip_ws]. change (is_ws 91) with false. cbn iota.
+  rewrite (lex_complete r _ Hl (S (length r)) ltac:(lia)). cbn [bind]. rewrite body_toks. cbn [bind]. rewrite Hd. reflexivity.
+Qed.
